@@ -469,7 +469,7 @@ theorem never_claimed_and_failed (n : NodeW) (f : Src × FailReason) (hf : f ∈
 /-- a channel closed as OutdatedChannelManager fails back exactly: what its force-shutdown dropped (holding-cell adds, LocalAnnounced
     HTLCs of a blocked commitment), and the sources of its pending HTLCs that the newer monitor does NOT list; an HTLC the monitor
     lists is never failed as "missing" -/
-theorem stale_fail_only_if_dropped_or_missing (n : NodeW) (c : ChanW) (s : Src) (r : FailReason) (h : (s, r) ∈ staleFailsOf c) :
+theorem stale_fail_only_if_dropped_or_missing (c : ChanW) (s : Src) (r : FailReason) (h : (s, r) ∈ staleFailsOf c) :
     c.stale = true ∧ r = .channelClosed ∧ (s ∈ c.mgrDropped ∨ (s ∈ c.mgrPending ∧ ∀ m ∈ c.monHtlcs, m.src ≠ s)) :=
   (mem_staleFailsOf c s r).mp h
 
@@ -484,6 +484,13 @@ example : fails { chans := [⟨1, some { mgr := ⟨3, 3, [], ⟨9, 9, 9⟩⟩, m
 example : (let n : NodeW := { chans := [⟨1, some { mgr := ⟨3, 3, [], ⟨9, 9, 9⟩⟩, mon := ⟨5, ⟨9, 9, 9⟩⟩ }, [⟨.prev 0 7, true⟩], [], false, [], [.prev 0 7]⟩,
                                        ⟨0, none, [], [], false, [], []⟩], queue := [], pays := fun _ => none }
     (fails n, (claims n).map (·.src), effectiveFails n)) = ([(.prev 0 7, .channelClosed)], [.prev 0 7], []) := by decide
+
+/-- CANDIDATE FINDING (reported to the integrator, see the final report): the `dropped_outbound_htlcs` disjunct has NO monitor check.
+    A forward that sat in the stale manager's holding cell and that the newer monitor lists as committed and still pending (no preimage)
+    is failed back upstream by the read while it is live downstream (real world: scenario 1, seed 7862637804313477842, p=53 q=34). -/
+example : (let n : NodeW := { chans := [⟨2, some { mgr := ⟨4, 4, [], ⟨9, 9, 9⟩⟩, mon := ⟨7, ⟨9, 9, 9⟩⟩ }, [⟨.prev 1 0, false⟩], [], false, [], [.prev 1 0]⟩,
+                                       ⟨1, some { mgr := ⟨2, 2, [], ⟨9, 9, 9⟩⟩, mon := ⟨2, ⟨9, 9, 9⟩⟩ }, [], [], false, [], []⟩], queue := [], pays := fun _ => none }
+    (effectiveFails n, (n.chans.head!).monHtlcs)) = ([(.prev 1 0, .channelClosed)], [⟨.prev 1 0, false⟩]) := by decide
 
 /-- `reconcile soundness` at node level: a queued forward disappears in the read only if the monitor of a channel that is closed at
     load time lists that very inbound HTLC as forwarded -/
